@@ -80,7 +80,7 @@ def recvtime(ctx, prefix="recvtime"):
         res = json.load(open(of))
         if res["harness_errors"]:
             raise Inconclusive("recv harness: %s" % res["harness_errors"][:3])
-        if res["violations"] or res["completed"] >= 0.7 * res["scripts"]:
+        if (res["violations"] or []) or res["completed"] >= 0.7 * res["scripts"]:
             break
         log("[recv] only %d of %d scripts kept their timing; retrying" % (res["completed"], res["scripts"]))
     if res is None:
@@ -88,9 +88,9 @@ def recvtime(ctx, prefix="recvtime"):
     log("[recv] scripts=%d completed=%d timing-inconclusive=%d steps=%d tie-breaks=%d refused(tip in time)=%d after-rejected-child=%d restarts=%d wall=%.0fs" % (
         res["scripts"], res["completed"], res["timing_inconclusive"], res["steps"], res["tie_breaks_performed"],
         res["competitors_refused_tip_in_time"], res["competitors_offered_after_a_rejected_child"], res["restarts"], res["wall_s"]))
-    for v in res["violations"]:
+    for v in (res["violations"] or []):
         ctx.violation(prefix + ":" + v["key"].split(":", 1)[1], v["what"], v.get("replay"))
-    if not res["violations"]:
+    if not (res["violations"] or []):
         if res["completed"] < 0.7 * res["scripts"]:
             raise Inconclusive("moving-clock replay: only %d of %d scripts could be placed inside their slots (machine too loaded)" % (res["completed"], res["scripts"]))
         if res["tie_breaks_performed"] < 5 or res["competitors_refused_tip_in_time"] < 5 or res["competitors_offered_after_a_rejected_child"] < 5:
